@@ -644,7 +644,10 @@ fn c17_run(n: &NegCase, sink: &mut Sink) -> (Verdict, Option<u64>, Value) {
     let mut first_hdrs: Option<Vec<(String, Vec<u8>)>> = None;
     for method in ["GET", "POST", "HEAD"] {
         for via_parts in [false, true] {
-            let case = StreamCase { method: method.into(), accept_encoding: n.accept_encoding.clone(), chunk: n.chunk, gzip_level: n.level, via_parts, payload: Payload::Text, ops: vec![Op::WriteAll(300), Op::WriteV(vec![n.chunk as u32 + 1, 40, 2 * n.chunk as u32]), Op::WriteAll(5)], extra_polls: 1, fresh_wakers: false, prelude: 0, builder_detour: (hash64(n) % 4) as u8, noise: ((hash64(n) >> 8) % 6) as u8, version: ((hash64(n) >> 16) % 5) as u8 };
+            // every fifth configuration writes nothing at all (flushes and an empty write only):
+            // the body is then the coding of zero bytes
+            let empty = hash64(n) % 5 == 4;
+            let case = StreamCase { method: method.into(), accept_encoding: n.accept_encoding.clone(), chunk: n.chunk, gzip_level: n.level, via_parts, payload: Payload::Text, ops: if empty { vec![Op::Flush, Op::Write(0), Op::Flush] } else { vec![Op::WriteAll(300), Op::WriteV(vec![n.chunk as u32 + 1, 40, 2 * n.chunk as u32]), Op::WriteAll(5)] }, extra_polls: 1, fresh_wakers: false, prelude: 0, builder_detour: (hash64(n) % 4) as u8, noise: ((hash64(n) >> 8) % 6) as u8, version: ((hash64(n) >> 16) % 5) as u8 };
             let o = match run_stream(&case) {
                 Some(o) => o,
                 None => return (Verdict::DontCare("inexpressible".into()), None, json!(null)),
@@ -687,7 +690,10 @@ fn c17_run(n: &NegCase, sink: &mut Sink) -> (Verdict, Option<u64>, Value) {
             }
             // what the writer reported as accepted (write_all, one vectored write, write_all)
             let plain = &o.accepted;
-            if plain.len() < 300 {
+            if empty {
+                sink.count("empty_bodies");
+            }
+            if plain.len() < 300 && !empty {
                 return fail("write-refused".into(), format!("{}: only {} bytes were accepted by a live writer", tag, plain.len()), &rendered);
             }
             let ended = o.all_polls().any(|p| p.ev == Ev::End);
@@ -790,7 +796,7 @@ impl Prop for C17 {
         "exploration"
     }
     fn rule(&self, _: &Ctx) -> String {
-        "full product: Accept-Encoding {absent, empty, invalid, all 66 single elements (6 codings x 11 weights), all 225 pairs over {gzip, identity, *} x 5 weights} x gzip level {default, 0..9} x chunk size {1, 7, 4096}; each configuration is built for GET, POST and HEAD, as Request and as Parts (6 builds; five sixths of the configurations carry unrelated request headers - Cache-Control, Range, TE, Content-Encoding ... -; three quarters of the configurations reach their settings through earlier, overridden builder calls), write_all(300) + one write_vectored of three slices + write_all(5), body drained; plus 70 / 300 / 1000 bodies alive at the same time, each then written, drained and verified. Non-trivial = distinct configuration whose Vary / Content-Encoding were compared with should_gzip && level > 0, whose body coding was verified against the header (gzip member parser / verbatim bytes), and whose HEAD/Parts variants were compared".into()
+        "full product: Accept-Encoding {absent, empty, invalid, all 66 single elements (6 codings x 11 weights), all 225 pairs over {gzip, identity, *} x 5 weights} x gzip level {default, 0..9} x chunk size {1, 7, 4096}; each configuration is built for GET, POST and HEAD, as Request and as Parts (6 builds; five sixths of the configurations carry unrelated request headers - Cache-Control, Range, TE, Content-Encoding ... -; three quarters of the configurations reach their settings through earlier, overridden builder calls), write_all(300) + one write_vectored of three slices + write_all(5) - or, for every fifth configuration, nothing but flushes and an empty write -, body drained; plus 70 / 300 / 1000 bodies alive at the same time, each then written, drained and verified. Non-trivial = distinct configuration whose Vary / Content-Encoding were compared with should_gzip && level > 0, whose body coding was verified against the header (gzip member parser / verbatim bytes), and whose HEAD/Parts variants were compared".into()
     }
     fn n_blocks(&self, ctx: &Ctx) -> usize {
         if ctx.leg.slow() { 4 } else { 11 * 3 + 3 }
